@@ -1,15 +1,16 @@
 ----------------------------- MODULE Gen_FileMeta -----------------------------
 (***************************************************************************)
 (* Behaviour / case generator for C09.                                     *)
-(*  Mode "ops"   : BFS over FileMeta with history; every transition out of *)
-(*                 every distinct (table, depth) is printed with the       *)
-(*                 expected table, group length and written size after     *)
-(*                 every step (VIEW hides the history).                    *)
-(*  Mode "tables": one case per table of the "one attribute varies" slices *)
-(*                 (every attribute at every length of Lens / absent).     *)
-(*  Mode "files" : complete-file cases: table x preamble shape x entry     *)
-(*                 point x ReadPreamble option with the expected outcome   *)
-(*                 from Preamble.tla.                                      *)
+(*  "ops"   : BFS over FileMeta with history; every transition out of     *)
+(*            every distinct (table, depth) is printed with the expected   *)
+(*            table, group length, written size and element layout after   *)
+(*            every step (VIEW hides the history).  The first operation    *)
+(*            ranges over the full alphabet from every base table, later   *)
+(*            ones over the Deep* alphabet from the DeepBases.             *)
+(*  "tables": one case per table of the "one attribute varies" slices      *)
+(*            (every attribute at every length of Lens / absent).          *)
+(*  "files" : complete-file cases: table x preamble shape x entry point x  *)
+(*            ReadPreamble option with the expected outcome (Preamble.tla) *)
 (***************************************************************************)
 EXTENDS FileMeta, Json
 
